@@ -22,6 +22,16 @@ INVARIANTS %(invs)s
 CHECK_DEADLOCK FALSE
 '''
 
+CFG_INIT = '''SPECIFICATION Spec
+CONSTANTS
+  Scripts <- MScripts
+  Policies <- MPolicies
+  MaxFaults = %(maxfaults)d
+  RecordFailed = %(recfailed)s
+INVARIANTS Completed RecordedAfterExec
+CHECK_DEADLOCK FALSE
+'''
+
 CFG_TRACE = '''SPECIFICATION TraceSpec
 CONSTANTS
   Groups <- MGroups
@@ -86,6 +96,26 @@ def run(tier):
         if not mc_strict['candidate']:
             raise vlib.Infra('Rotate.tla with InvalidateFirst = FALSE violates nothing: Converged is vacuous in this configuration')
         strict_candidate = None
+        # 1c. initialisation (maintenance.Update): InitSchema.tla with the script streams recorded from the code
+        scripts = gj.get('scripts') or []
+        if len(scripts) < 20 or sum(len(x['creates']) for x in scripts) < 8:
+            raise vlib.Infra('could not read the schema scripts off a recorded Update run: %s' % scripts[:5])
+        open(os.path.join(sd, 'MC_InitSchema.tla'), 'w').write(
+            '---- MODULE MC_InitSchema ----\nEXTENDS InitSchema\nMScripts == %s\nMPolicies == {"", "p"}\n====\n' % vlib.tla_value(scripts))
+        def mc_init(recfailed, maxfaults):
+            open(os.path.join(sd, 'MC_InitSchema.cfg'), 'w').write(CFG_INIT % {'maxfaults': maxfaults, 'recfailed': 'TRUE' if recfailed else 'FALSE'})
+            res = vlib.tlc(SPECDIR, 'MC_InitSchema.tla', 'MC_InitSchema.cfg', timeout=1200,
+                           copy_extra=[os.path.join(sd, 'MC_InitSchema.tla'), os.path.join(sd, 'MC_InitSchema.cfg')])
+            m = {'states': res.get('distinct', 0), 'transitions': res.get('generated', 0), 'wall_s': round(res['wall'], 1), 'violated': res['violated']}
+            if not res['violated'] and not res.get('finished'):
+                raise vlib.Infra('TLC did not finish on InitSchema: ' + res['out'][-1500:])
+            vlib.tlc_cleanup(res)
+            return m
+        mc_i = mc_init(False, 2 if tier == 'quick' else 3)
+        mc_i_mut = mc_init(True, 1)
+        if not mc_i_mut['violated']:
+            raise vlib.Infra('InitSchema.tla with RecordFailed = TRUE violates nothing: Completed is vacuous')
+        init_candidate = mc_i['violated']
         # 2. sweep of the real code
         swp = os.path.join(sd, 'sweep.json')
         trp = os.path.join(sd, 'trace.ndjson')
@@ -103,6 +133,19 @@ def run(tier):
                 viols.append({'property': 'C19', 'signature': c['signature'], 'msg': c['violation'], 'replay': path})
             elif sample is None and len(c['runs']) > 3:
                 sample = c
+        init_cases = sweep.get('init_cases') or []
+        if len(init_cases) < 100:
+            raise vlib.Infra('initialisation sweep is vacuous: %d cases' % len(init_cases))
+        init_sigs = {}
+        for c in init_cases:
+            if c.get('violation') and c['signature'] not in init_sigs:
+                init_sigs[c['signature']] = c
+        for sig, c in sorted(init_sigs.items()):
+            n = sum(1 for x in init_cases if x.get('signature') == sig)
+            path = vlib.save_replay('C19', 'init_' + re.sub(r'[^A-Za-z0-9]+', '_', sig)[:100], {'kind': 'sweep of maintenance.Update (+Rotate) over fakeconn', 'case': c, 'cases_with_this_signature': n})
+            viols.append({'property': 'C19', 'signature': sig, 'msg': c['violation'] + ' (%d case(s))' % n, 'replay': path})
+        if init_candidate and not init_sigs:
+            raise vlib.Infra('TLC reports %s on InitSchema.tla but no run of the real Update reproduces it: the specification misrepresents the code' % init_candidate)
         # (a revert-after-interrupted-change divergence of the real code is a plain violation again: the design as coded excludes it)
         if candidate and not sigs_real:
             raise vlib.Infra('TLC reports %s on Rotate.tla (%s) but no run of the real Rotate reproduces it: the specification misrepresents the code'
@@ -123,10 +166,13 @@ def run(tier):
             path = vlib.save_replay('C19', 'trace', {'kind': 'trace validation (Trace_Rotate)', 'detail': detail, 'trace_segment': seg})
             viols.append({'property': 'C19', 'signature': sig, 'replay': path,
                           'msg': 'statement log of the real Rotate is not a behaviour of Rotate.tla / violates an invariant: %s' % json.dumps(detail)[:400]})
-        cov = {'states': mc['states'], 'transitions': mc['transitions'], 'traces_validated_against_impl': ntr,
+        cov = {'states': mc['states'] + mc_i['states'], 'transitions': mc['transitions'] + mc_i['transitions'], 'traces_validated_against_impl': ntr + len(init_cases),
                'samples': [sample or sweep['cases'][0], {'groups_with_keys_from_the_code': groups}],
                'exhaustive': True, 'model_check': mc, 'mutation_without_invalidation': mc_strict,
                'sweep': {'cases': len(sweep['cases']), 'events': sweep.get('events')},
+               'init_model_check': mc_i, 'init_mutation_record_failed': mc_i_mut,
+               'init_sweep': {'cases': len(init_cases), 'interrupted': sum(1 for c in init_cases if c['n'] > 0),
+                              'with_policy': sum(1 for c in init_cases if c['cfg']['policy']), 'sample': init_cases[len(init_cases) // 2]},
                'trace_validation': {'accepted': ok, 'tlc': st, 'detail': detail},
                'checker_cmd': 'c19 groups -> tlc MC_Rotate; c19 sweep -> semantic TTL/policy checks + tlc Trace_Rotate'}
         return {'level': 'model_checking', 'coverage': cov, 'violations': viols,
